@@ -1,5 +1,211 @@
-//! Real-thread stress of the unmodified tiny_std::sync types (real futex syscalls).
-use vh::runner::Ctx;
+//! Real-thread stress of the unmodified `tiny_std::sync` types (real futex syscalls through
+//! rusl). Covers what the source rewrite bypasses: rusl's futex argument encoding and the
+//! agreement of wait/wake on the futex key. OS schedules are sampled, not owned: only
+//! definitive observations are reported (two holders at once, a lost update, or every worker
+//! thread parked in an untimed futex wait).
+use std::sync::atomic::{AtomicU32, AtomicU64, Ordering};
+use std::sync::Arc;
+use std::time::{Duration, Instant};
 
-pub fn run_mutex(_ctx: &Ctx) {}
-pub fn run_rwlock(_ctx: &Ctx) {}
+use proptest::prelude::*;
+use serde::{Deserialize, Serialize};
+
+use vh::runner::{CaseReport, CaseResult, Ctx, Failure};
+
+#[derive(Debug, Clone, Copy, Serialize, Deserialize, PartialEq)]
+pub enum ROp {
+    Lock,
+    TryLock,
+    Read,
+    Write,
+    TryRead,
+    TryWrite,
+}
+
+#[derive(Debug, Clone, Serialize, Deserialize)]
+pub struct RealCase {
+    /// per thread: (operation, busy iterations inside the critical section, busy iterations
+    /// before the next operation)
+    pub prog: Vec<Vec<(ROp, u16, u16)>>,
+    pub rounds: u16,
+}
+
+fn busy(n: u16) {
+    for _ in 0..n {
+        std::hint::spin_loop();
+    }
+}
+
+struct Shared {
+    writers: AtomicU32,
+    readers: AtomicU32,
+    violations: AtomicU32,
+    sections: AtomicU64,
+    done: AtomicU32,
+}
+
+fn all_parked_in_futex(tids: &[i32]) -> bool {
+    // /proc/self/task/<tid>/syscall: "202 0x.. 0x0 ..." = futex(FUTEX_WAIT, no timeout)
+    let mut parked = 0;
+    let mut alive = 0;
+    for tid in tids {
+        let Ok(s) = std::fs::read_to_string(format!("/proc/self/task/{tid}/syscall")) else { continue };
+        alive += 1;
+        let f: Vec<&str> = s.split_whitespace().collect();
+        if f.len() >= 5 && f[0] == "202" {
+            let op = u64::from_str_radix(f[2].trim_start_matches("0x"), 16).unwrap_or(99);
+            let timeout = u64::from_str_radix(f[4].trim_start_matches("0x"), 16).unwrap_or(1);
+            if op & 0x7f == 0 && timeout == 0 {
+                parked += 1;
+            }
+        }
+    }
+    alive > 0 && parked == alive
+}
+
+fn run_real(c: &RealCase, rw: bool) -> CaseResult {
+    let mutex = Arc::new(tiny_std::sync::Mutex::new(0u64));
+    let rwlock = Arc::new(tiny_std::sync::RwLock::new(0u64));
+    let sh = Arc::new(Shared { writers: 0.into(), readers: 0.into(), violations: 0.into(), sections: 0.into(), done: 0.into() });
+    let n = c.prog.len();
+    let tids = Arc::new(std::sync::Mutex::new(Vec::<i32>::new()));
+    let barrier = Arc::new(std::sync::Barrier::new(n));
+    let mut handles = Vec::new();
+    for ops in c.prog.iter().cloned() {
+        let (mutex, rwlock, sh, tids, barrier) = (mutex.clone(), rwlock.clone(), sh.clone(), tids.clone(), barrier.clone());
+        let rounds = c.rounds;
+        handles.push(std::thread::spawn(move || {
+            tids.lock().unwrap().push(unsafe { libc::syscall(libc::SYS_gettid) } as i32);
+            barrier.wait();
+            let excl = |sh: &Shared, v: &mut u64, hold: u16| {
+                if sh.writers.fetch_add(1, Ordering::SeqCst) != 0 || sh.readers.load(Ordering::SeqCst) != 0 {
+                    sh.violations.fetch_add(1, Ordering::SeqCst);
+                }
+                let x = *v;
+                busy(hold);
+                *v = x + 1;
+                sh.sections.fetch_add(1, Ordering::SeqCst);
+                sh.writers.fetch_sub(1, Ordering::SeqCst);
+            };
+            let shared = |sh: &Shared, hold: u16| {
+                sh.readers.fetch_add(1, Ordering::SeqCst);
+                if sh.writers.load(Ordering::SeqCst) != 0 {
+                    sh.violations.fetch_add(1, Ordering::SeqCst);
+                }
+                busy(hold);
+                sh.readers.fetch_sub(1, Ordering::SeqCst);
+            };
+            for _ in 0..rounds {
+                for &(op, hold, gap) in &ops {
+                    match op {
+                        ROp::Lock => {
+                            let mut g = mutex.lock();
+                            excl(&sh, &mut g, hold);
+                        }
+                        ROp::TryLock => {
+                            if let Some(mut g) = mutex.try_lock() {
+                                excl(&sh, &mut g, hold);
+                            }
+                        }
+                        ROp::Write => {
+                            let mut g = rwlock.write();
+                            excl(&sh, &mut g, hold);
+                        }
+                        ROp::TryWrite => {
+                            if let Some(mut g) = rwlock.try_write() {
+                                excl(&sh, &mut g, hold);
+                            }
+                        }
+                        ROp::Read => {
+                            let _g = rwlock.read();
+                            shared(&sh, hold);
+                        }
+                        ROp::TryRead => {
+                            if let Some(_g) = rwlock.try_read() {
+                                shared(&sh, hold);
+                            }
+                        }
+                    }
+                    busy(gap);
+                }
+            }
+            sh.done.fetch_add(1, Ordering::SeqCst);
+        }));
+    }
+    // watchdog
+    let t0 = Instant::now();
+    let mut deadlocked = false;
+    loop {
+        if sh.done.load(Ordering::SeqCst) as usize == n {
+            break;
+        }
+        std::thread::sleep(Duration::from_micros(200));
+        if t0.elapsed() > Duration::from_secs(5) {
+            // definitive only if every live worker is parked in an untimed FUTEX_WAIT, twice
+            let t = tids.lock().unwrap().clone();
+            if all_parked_in_futex(&t) {
+                std::thread::sleep(Duration::from_millis(200));
+                if all_parked_in_futex(&t) && (sh.done.load(Ordering::SeqCst) as usize) < n {
+                    deadlocked = true;
+                    break;
+                }
+            }
+            if t0.elapsed() > Duration::from_secs(30) {
+                break;
+            }
+        }
+    }
+    let what = if rw { "RwLock" } else { "Mutex" };
+    if deadlocked {
+        // threads are leaked (parked forever); the worker process is recycled by the runner
+        return Err(Failure::new(format!("{what}|real-threads|deadlock: every worker parked in untimed futex wait"), format!("{} of {} threads finished; the rest are all parked in futex(FUTEX_WAIT) without timeout", sh.done.load(Ordering::SeqCst), n)));
+    }
+    if (sh.done.load(Ordering::SeqCst) as usize) < n {
+        return Err(Failure::new(format!("{what}|real-threads|inconclusive-timeout"), "threads did not finish within 30 s but are not all parked".to_string()));
+    }
+    for h in handles {
+        let _ = h.join();
+    }
+    if sh.violations.load(Ordering::SeqCst) != 0 {
+        return Err(Failure::new(format!("{what}|real-threads|exclusion violated"), format!("{} critical sections overlapped", sh.violations.load(Ordering::SeqCst))));
+    }
+    let total = *mutex.lock() + *rwlock.write();
+    if total != sh.sections.load(Ordering::SeqCst) {
+        return Err(Failure::new(format!("{what}|real-threads|lost update"), format!("counter sum {} but {} exclusive sections ran", total, sh.sections.load(Ordering::SeqCst))));
+    }
+    let mut rep = CaseReport::new();
+    rep.nontrivial_if(n >= 2);
+    rep.class_if(n >= 4, "4+threads");
+    Ok(rep)
+}
+
+fn real_case(rw: bool) -> impl Strategy<Value = RealCase> {
+    let kinds: Vec<ROp> = if rw { vec![ROp::Read, ROp::Write, ROp::Write, ROp::TryRead, ROp::TryWrite, ROp::Read] } else { vec![ROp::Lock, ROp::Lock, ROp::Lock, ROp::TryLock] };
+    let op = (prop::sample::select(kinds), prop_oneof![Just(0u16), 1u16..50, 50u16..3000], prop_oneof![Just(0u16), 1u16..200]);
+    (prop::collection::vec(prop::collection::vec(op, 1..4), 2..=8), 20u16..400).prop_map(|(prog, rounds)| RealCase { prog, rounds })
+}
+
+fn tolerant(res: CaseResult, ctx: &Ctx) -> CaseResult {
+    // a timeout that is not a definitive deadlock is inconclusive, never a violation
+    match res {
+        Err(f) if f.sig.ends_with("inconclusive-timeout") => {
+            ctx.inconclusive();
+            Ok(CaseReport::new())
+        }
+        r => r,
+    }
+}
+
+pub fn run_mutex(ctx: &Ctx) {
+    if ctx.worker >= 2 {
+        return; // real threads want the cores: two worker processes per profile are enough
+    }
+    ctx.run_prop("real-mutex", ctx.cases(150, 6000), real_case(false), |c| tolerant(run_real(c, false), ctx));
+}
+
+pub fn run_rwlock(ctx: &Ctx) {
+    if ctx.worker >= 2 {
+        return;
+    }
+    ctx.run_prop("real-rwlock", ctx.cases(150, 6000), real_case(true), |c| tolerant(run_real(c, true), ctx));
+}
